@@ -34,6 +34,7 @@ type regOp struct {
 	NodeIDs   []string `json:"nodes,omitempty"`
 	NodeKind  int      `json:"kind,omitempty"`
 	Policy    string   `json:"policy,omitempty"` // "", allow, deny, invalid
+	Policy2   string   `json:"policy2,omitempty"` // a second policy option in the same call (one of the two is invalid, or both are equal)
 	Thr       int      `json:"thr,omitempty"`
 	CloseErr  bool     `json:"close_fails,omitempty"`
 	ReopenErr bool     `json:"reopen_fails,omitempty"`
@@ -53,6 +54,9 @@ func (o regOp) String() string {
 		if o.Policy != "" {
 			s += "," + o.Policy
 		}
+		if o.Policy2 != "" {
+			s += ",then:" + o.Policy2
+		}
 		if o.CloseErr {
 			s += ",close-fails"
 		}
@@ -67,6 +71,9 @@ func (o regOp) String() string {
 		s := fmt.Sprintf("RegisterPipeline(%s/%s,%v", o.Typ, o.PID, o.NodeIDs)
 		if o.Policy != "" {
 			s += "," + o.Policy
+		}
+		if o.Policy2 != "" {
+			s += ",then:" + o.Policy2
 		}
 		if o.Foreign != "" {
 			s += ",+node-option:" + o.Foreign
@@ -92,6 +99,20 @@ func (o regOp) String() string {
 		return fmt.Sprintf("SetSuccessThresholdSinks(%s,%d)", o.Typ, o.Thr)
 	}
 	return o.Kind
+}
+
+// secondPolicy picks the second policy option of a call: if the first is invalid any
+// valid one (the call stays invalid), else an invalid one or the same again -- two
+// different valid policies in one call are not generated (which one applies is not stated).
+func secondPolicy(first string, c int) string {
+	switch first {
+	case "allow", "deny":
+		if c == 0 {
+			return "invalid"
+		}
+		return first
+	}
+	return []string{"allow", "deny"}[c]
 }
 
 func policyOpt(p string, node bool) ([]el.Option, el.RegistrationPolicy, bool) {
@@ -154,6 +175,13 @@ func (w *regWorld) apply(op regOp) (ms []mismatch, failed bool) {
 			w.objs = append(w.objs, obj)
 		}
 		opts, pol, given := policyOpt(op.Policy, true)
+		if op.Policy2 != "" {
+			o2, pol2, _ := policyOpt(op.Policy2, true)
+			opts = append(opts, o2...)
+			if !given || (pol == el.AllowOverwrite || pol == el.DenyOverwrite) {
+				pol, given = pol2, true // the first one is valid (or absent): the second decides; an invalid first one keeps the call invalid
+			}
+		}
 		if op.Foreign != "" {
 			fo, _, _ := policyOpt(op.Foreign, false) // a pipeline option on a node call
 			opts = append(opts, fo...)
@@ -177,6 +205,13 @@ func (w *regWorld) apply(op regOp) (ms []mismatch, failed bool) {
 		}
 	case "regpipe":
 		opts, pol, given := policyOpt(op.Policy, false)
+		if op.Policy2 != "" {
+			o2, pol2, _ := policyOpt(op.Policy2, false)
+			opts = append(opts, o2...)
+			if !given || (pol == el.AllowOverwrite || pol == el.DenyOverwrite) {
+				pol, given = pol2, true
+			}
+		}
 		if op.Foreign != "" {
 			fo, _, _ := policyOpt(op.Foreign, true) // a node option on a pipeline call
 			if len(opts) > 0 && op.Thr%2 == 0 {
@@ -607,12 +642,37 @@ func runRegistrySeqOps(rc *RunCtx, prop string, fixed []regOp) {
 			if (prop == "C07" || prop == "C05") && tp.Choose(4, "sameobj") == 0 {
 				o.SameObj = true
 			}
+			if (prop == "C05" || prop == "C07") && o.Policy != "" && tp.Choose(4, "policy2") == 0 {
+				o.Policy2 = secondPolicy(o.Policy, tp.Choose(2, "policy2-kind"))
+			}
+			if (prop == "C05" || prop == "C07" || prop == "C06") && tp.Choose(6, "otherkind") == 0 {
+				// the node behind an id (possibly in use) is replaced by one of ANOTHER kind
+				o.NodeKind = []int{int(el.NodeTypeFilter), int(el.NodeTypeFormatter), int(el.NodeTypeFormatterFilter), int(el.NodeTypeSink)}[tp.Choose(4, "kind")]
+				o.SameObj = false
+			}
 			if (prop == "C07" || prop == "C05") && tp.Choose(5, "foreign") == 0 {
 				o.Foreign = []string{"allow", "deny"}[tp.Choose(2, "foreignpol")]
 			}
 			return o
 		case 1:
 			o := regOp{Kind: "regpipe", Typ: typ, PID: pid, NodeIDs: genPipeNodes(), Policy: genPolicy()}
+			if (prop == "C05" || prop == "C07") && o.Policy != "" && tp.Choose(4, "policy2") == 0 {
+				o.Policy2 = secondPolicy(o.Policy, tp.Choose(2, "policy2-kind"))
+			}
+			if (prop == "C05" || prop == "C07" || prop == "C06") && tp.Choose(5, "identical") == 0 {
+				// re-register a registered pipeline with exactly the node list it has now
+				// (valid or not depends on what is registered under those ids NOW)
+				var keys []string
+				for k := range w.model.pipes {
+					keys = append(keys, k)
+				}
+				sort.Strings(keys)
+				if len(keys) > 0 {
+					mp := w.model.pipes[keys[tp.Choose(len(keys), "which-pipeline")]]
+					o.Typ, o.PID, o.NodeIDs = mp.typ, mp.id, append([]string{}, mp.nodeIDs...)
+					simrt.Probe("registry.identical-reregistration")
+				}
+			}
 			if (prop == "C07" || prop == "C05") && tp.Choose(5, "foreign") == 0 {
 				o.Foreign = []string{"allow", "deny"}[tp.Choose(2, "foreignpol")]
 				o.Thr = tp.Choose(2, "foreignfirst")
